@@ -1,5 +1,5 @@
 import MuscleModel.Reflector.UpdateProofs
-import MuscleModel.Reflector.MirrorProofs17
+import MuscleModel.Reflector.MirrorProofs22
 
 /-!
 # C04 — A subscriber's mirror of the node tree converges to the server's tree
@@ -36,6 +36,16 @@ host names (`CReach`), hence `Unamb` is no longer a hypothesis (`names_unambiguo
 general (any mix of existing clauses, created inner nodes and a created or overwritten last node: `step_mirror_set`), for
 `setm`, for recursive `RemoveChild` / REMOVEDATA (`step_mirror_rm`), for the departure of another session
 (`step_mirror_detach_other`), and the convergence theorem over steady-state histories (`converges_steady`).
+
+Section 8 (lemmas `Reflector/MirrorProofs18…20.lean`): the snapshot of `DoGetData` as structured Messages
+(`snapshot_replay`), the subscriber's own SUBSCRIBE of a new path (`step_mirror_subscribe_new`, with the visits of the
+snapshot traversal as hypothesis `SnapVisits`, proved for sessions that reflect to themselves: `snapVisits_reflect_self`),
+quiet commands (`quiet_step`), histories `Hist`, and `converges_fixed_subs`: ONE SUBSCRIBE from the empty mirror, then
+any history.
+
+Section 9 (lemmas `Reflector/MirrorProofs21…22.lean`): arrival of another session (`step_mirror_attach_other`), unsubscribe
+with the client's drop rule `applyUnsub` (`step_mirror_unsubscribe`), histories with arrivals (`History`) and
+`converges_fixed_subs_arrivals`.
 
 Full statements of the property theorems that are NOT proved (kept for reference):
   `step_mirror : MReach sv → CmdOK c → ∀ attached s with subscriptions enabled, ∃ evs, Sync s.sid s sv (runCmd sv a c) m evs`
@@ -655,5 +665,145 @@ theorem setOK_a : SetOK [97] := by
 example : Steady 0 exSv (detach (pushAll (runCmd ([6, 7].foldl (fun sv v => runCmd sv 1 (.set [97] v false)) exSv) 1
     (.rm [[42]]))) 1) :=
   .trans (steady_setm 0 1 [97] setOK_a [6, 7] exSv) (.trans (.rm 1 [[42]]) (.trans .push (.detach 1 (by decide))))
+
+/-! ## 8. the subscriber's own SUBSCRIBE; quiet commands; convergence for a fixed subscription set
+
+`snapEvs C vs` = one `set` per visited node that exists, in visit order.  `subC sv sid path f` = the state `DoGetData` runs on
+inside `subscribe` (entry put, reference counts adjusted, parameter recorded), `subSess s path f` = the subscriber's record
+there.  `SnapVisits C sC fix f`: the snapshot traversal (callback `GetDataCallback`) visits exactly the existing nodes the
+new entry matches — path AND filter — that are `visible` to the subscriber. -/
+
+/-- `DoGetData` as structured Messages: whatever `maxItems` is, and with index Messages (no data lines) interleaved, the
+    data lines appended to the inbox are the text of Messages `sent` whose in-order application is the fold of one `set`
+    per visited node; the tree and the rest of the session are untouched (`SD`). -/
+theorem snapshot_replay (C : Server) (sid : Nat) (sC : Sess) (hs : C.sess? sid = some sC)
+    (keys : List (Bytes × Option Filt)) (m : Mirror) :
+    ∃ sent, SD C sid sC (doGetData C sid keys) sent ∧
+      applyMsgs m sent =
+        (snapEvs C (travGlobal C (pmOfKeys keys (some defaultPrefix)) true (getDataCb sC))).foldl applyEv m :=
+  doGetData_replay C sid sC hs keys m
+
+/-- for a session that reflects to itself `GetDataCallback` is the continue-callback and C05's theorem gives the visits -/
+theorem snapVisits_reflect_self {C : Server} (hti : TreeInv C) {sC : Sess} (hr : sC.reflectSelf = true) {fix : Bytes}
+    (hgood : GoodPath fix) (f : Option Filt) : SnapVisits C sC fix f :=
+  snapVisits_reflectSelf hti hr hgood f
+
+/-- SUBSCRIBE of a NEW path by `sid` itself (any earlier subscriptions allowed, `pmFind … = none`: F10 excluded for this
+    path): the data lines of its inbox grow by the text of Messages `sent`, its pending Message is untouched, and a mirror
+    that is right for the OLD subscription set is, after applying `sent`, right for the NEW one. -/
+theorem step_mirror_subscribe_new {sv : Server} (hinv : Inv sv) {sid : Nat} {s : Sess} (hs : sv.sess? sid = some s)
+    (path : Bytes) (f : Option Filt) (hgood : GoodPath (adjustPrefix path (some defaultPrefix)))
+    (hf : pmFind s.subs (adjustPrefix path (some defaultPrefix)) = none)
+    (hV : SnapVisits (subC sv sid path f) (subSess s path f) (adjustPrefix path (some defaultPrefix)) f)
+    (m : Mirror) (hm : MirrorOK sv s m) :
+    ∃ sD sent, (runCmd sv sid (.sub path f)).sess? sid = some sD ∧ sD.core = (subSess s path f).core ∧
+      sD.nextData = s.nextData ∧ dataLines sD = dataLines s ++ sent.map dataText ∧
+      MirrorOK (runCmd sv sid (.sub path f)) sD (applyMsgs m sent) :=
+  subscribe_new_replay hinv hs path f hgood hf hV m hm
+
+/-- quiet commands: PING, GETPARAMETERS and client-to-client Messages of anybody (also `sid`'s own: the lines are no data
+    lines), parameter / SUBSCRIBE / unsubscribe commands of OTHER sessions: the pipe of `sid` makes an empty step and no
+    payload of the tree changes. -/
+theorem quiet_step {sid a : Nat} (sv : Server) (c : Cmd) (h : QuietCmd sid a c) :
+    PipeStep sid sv (runCmd sv a c) [] ∧
+    ∀ w, (getNode (runCmd sv a c) w).map Node.data = (getNode sv w).map Node.data :=
+  quiet_runCmd sv c h
+
+/-- `Hist sid`: `Steady` histories and quiet commands, in any order. -/
+theorem hist_step {sid : Nat} {sv sv' : Server} (hh : Hist sid sv sv') (h : Inv sv) : SyncFor sid sv sv' ∧ Inv sv' :=
+  hist_sync hh h
+
+/-- CONVERGENCE for a subscription set established by ONE SUBSCRIBE (`converges` for the common case).  `sv0` satisfies
+    the invariants (every `CReach` state, i.e. anything reached from the empty server: `creach_inv`); session `sid` is attached
+    with no subscription yet, subscriptions enabled, nothing pending, and its client holds the empty mirror.  It sends
+    SUBSCRIBE `path` with filter `f` (`GoodPath`; `SnapVisits`: `snapVisits_reflect_self`), then ANY `Hist sid` history
+    happens (SETDATA, `setm`, REMOVEDATA, pushes, departures of others, and the quiet commands, by any senders in any
+    order).  At every later point with nothing pending for `sid`: the PR_RESULT_DATAITEMS lines appended to its inbox since
+    `sv0` are the text of Messages `sent`, and the client that applied them in order — removals first, then sets — holds
+    exactly the nodes matching its subscription, with their current payloads.
+    NOT covered: arrivals, INSERTORDEREDDATA / index flag / REORDERDATA, further (un)subscribes and parameter commands of
+    `sid` itself, and plain (non-reflecting) sessions without the `SnapVisits` hypothesis. -/
+theorem converges_fixed_subs {sv0 sv' : Server} (h0 : Inv sv0) {sid : Nat} {s0 : Sess} (hs0 : sv0.sess? sid = some s0)
+    (hnos : s0.subs = []) (hen : s0.subsEnabled = true) (hq0 : pend s0 = {}) (path : Bytes) (f : Option Filt)
+    (hgood : GoodPath (adjustPrefix path (some defaultPrefix)))
+    (hV : SnapVisits (subC sv0 sid path f) (subSess s0 path f) (adjustPrefix path (some defaultPrefix)) f)
+    (hh : Hist sid (runCmd sv0 sid (.sub path f)) sv')
+    (hq' : ∀ s', sv'.sess? sid = some s' → pend s' = {}) :
+    ∃ s' sent, sv'.sess? sid = some s' ∧ dataLines s' = dataLines s0 ++ sent.map dataText ∧
+      s'.subs = pmPut [] (adjustPrefix path (some defaultPrefix)) f ∧
+      MirrorOK sv' s' (applyMsgs (fun _ => none) sent) :=
+  converges_fixed_subs_core h0 hs0 hnos hen hq0 path f hgood hV hh hq'
+
+/-! Non-vacuity: in `exSv1` (two sessions, session 1 owns `a` = 5, session 0 has the reflect-to-self parameter and no
+subscription) the hypotheses of `converges_fixed_subs` hold for `sid = 0`, the path `a` and the history "session 1 sets `a`
+to 6, pings, push". -/
+def exSv1 : Server :=
+  runCmd (runCmd (attach (attach {} 0 [104]).1 1 [105]).1 1 (.set [97] 5 false)) 0 .paramSelf
+
+theorem exSv1_creach : CReach exSv1 :=
+  .cmd 0 _ trivial (.cmd 1 _ trivial (.attach 1 [105] (by decide) (.attach 0 [104] (by decide) .init)))
+
+example : (exSv1.sess? 0).map (fun s => (s.subs.length, s.subsEnabled, s.reflectSelf, s.nextData.isNone)) =
+    some (0, true, true, true) := by decide +kernel
+
+example : Hist 0 (runCmd exSv1 0 (.sub [97] none))
+    (pushAll (runCmd (runCmd (runCmd exSv1 0 (.sub [97] none)) 1 (.set [97] 6 false)) 1 (.ping 3))) :=
+  .trans (.steady (.set 1 [97] 6 setOK_a)) (.trans (.quiet 1 (.ping 3) trivial trivial) (.steady .push))
+
+/-! ## 9. arrivals; unsubscribe with the client's drop rule
+
+`FreshSessNode sv host`: the host node, if it exists, has no child named like the id the arriving session gets (ids are
+never reused, session-node names are injective in the id: true in every reachable state; an explicit hypothesis here).
+`namesOf p` = the names of a path string (inverse of `pathString` on slash-free names: `namesOf_pathString`).
+`applyUnsub pm m` = the client's step after its own unsubscribe: keep a mirrored path `p` with payload `d` iff an entry of the
+remaining matcher `pm` matches `namesOf p` and its filter accepts `d` (the server sends nothing on unsubscribe). -/
+
+/-- ARRIVAL of another session, seen by a subscriber that is already attached: the created host node (if new) and session
+    node are notified like any created node. -/
+theorem step_mirror_attach_other {sv : Server} (h : Inv sv) (slot : Nat) (host : Bytes) (hh : cSlash ∉ host)
+    (hfresh : FreshSessNode sv host) {sid : Nat} (hold : (sv.sess? sid).isSome) :
+    SyncFor sid sv (attach sv slot host).1 ∧ Inv (attach sv slot host).1 :=
+  ⟨syncFor_attach h slot host hh hfresh hold, h.attach slot host hh⟩
+
+theorem applyUnsub_def (pm : PM) (m : Mirror) (p : Bytes) :
+    applyUnsub pm m p = match m p with
+      | some d => if pmMatchesPath pm (namesOf p) true d then some d else none
+      | none => none := rfl
+
+/-- UNSUBSCRIBE by `sid` itself (whatever the command does: entry removed and reference counts decremented, or nothing when
+    the parameter / entry does not exist): nothing is sent, nothing pending changes, and the client that applies its drop
+    rule with the REMAINING subscription set turns a right mirror for the old set into a right mirror for the new one. -/
+theorem step_mirror_unsubscribe {sv : Server} (hinv : Inv sv) {sid : Nat} {s : Sess} (hs : sv.sess? sid = some s)
+    (path : Bytes) (m : Mirror) (hm : MirrorOK sv s m) :
+    ∃ s', (runCmd sv sid (.unsub path)).sess? sid = some s' ∧ s'.nextData = s.nextData ∧ s'.inbox = s.inbox ∧
+      MirrorOK (runCmd sv sid (.unsub path)) s' (applyUnsub s'.subs m) :=
+  unsubscribe_step hinv hs path m hm
+
+/-- `History sid` = `Hist sid` plus arrivals of other sessions. -/
+theorem history_step {sid : Nat} {sv sv' : Server} (hh : History sid sv sv') (h : Inv sv) :
+    SyncFor sid sv sv' ∧ Inv sv' :=
+  history_sync hh h
+
+/-- `converges_fixed_subs` with arrivals in the history. -/
+theorem converges_fixed_subs_arrivals {sv0 sv' : Server} (h0 : Inv sv0) {sid : Nat} {s0 : Sess}
+    (hs0 : sv0.sess? sid = some s0) (hnos : s0.subs = []) (hen : s0.subsEnabled = true) (hq0 : pend s0 = {})
+    (path : Bytes) (f : Option Filt) (hgood : GoodPath (adjustPrefix path (some defaultPrefix)))
+    (hV : SnapVisits (subC sv0 sid path f) (subSess s0 path f) (adjustPrefix path (some defaultPrefix)) f)
+    (hh : History sid (runCmd sv0 sid (.sub path f)) sv')
+    (hq' : ∀ s', sv'.sess? sid = some s' → pend s' = {}) :
+    ∃ s' sent, sv'.sess? sid = some s' ∧ dataLines s' = dataLines s0 ++ sent.map dataText ∧
+      s'.subs = pmPut [] (adjustPrefix path (some defaultPrefix)) f ∧
+      MirrorOK sv' s' (applyMsgs (fun _ => none) sent) :=
+  converges_fixed_subs_history h0 hs0 hnos hen hq0 path f hgood hV hh hq'
+
+/-! Non-vacuity: `FreshSessNode` holds in `exSv1` for a new host and for the existing host `h`; `namesOf` inverts
+`pathString` on `/i/1/a`. -/
+example : FreshSessNode exSv1 [106] := by
+  intro hn hg
+  have : getNode exSv1 [[106]] = none := by decide +kernel
+  rw [this] at hg; cases hg
+example : (getNode exSv1 [[104]]).map (fun hn => (findKid (sidName exSv1.nextSid) hn.kids).isSome) = some false := by
+  decide +kernel
+example : namesOf (pathString [[105], [49], [97]]) = [[105], [49], [97]] := by decide
 
 end Muscle.Props.C04
